@@ -52,10 +52,32 @@ func (h *hist) apply(op pmap.Op) pmap.Result {
 	return pmap.Apply(h.in, op)
 }
 
+// hungTypes: a type one of whose calls ran into a proven endless chain walk (or stalled
+// without proof). The goroutine of that call spins for ever; the remaining histories of the
+// type are skipped in this process (each would cost another watchdog period and another
+// spinning goroutine).
+var hungTypes = map[string]bool{}
+
 // guardCase runs one case in its own goroutine under the progress watchdog.
 func guardCase(c *vlib.Ctx, section, caseID string, fn func()) {
 	curHist.Store(nil)
-	out := pmap.GuardProgress(guardTimeout, progSeq.Load, func() {
+	var cycle *pmap.Cycle
+	probe := func(rep pmap.StallReport) bool {
+		// the call is running (not parked) inside golib and has not come back for a whole
+		// watchdog period: look at the chains it is walking. A cyclic chain seen at two looks
+		// is the proof that the walk cannot end; the elapsed time only decided WHEN to look.
+		h := curHist.Load()
+		if h == nil || rep.RunningInGolib() == "" {
+			return false
+		}
+		if pmap.FindCycle(h.in) == nil {
+			return false
+		}
+		time.Sleep(20 * time.Millisecond)
+		cycle = pmap.FindCycle(h.in)
+		return cycle != nil
+	}
+	out := pmap.GuardProgressProbe(guardTimeout, 30, progSeq.Load, func() {
 		defer func() {
 			if e := recover(); e != nil {
 				c.Fail(section+":panic", fmt.Sprintf("unexpected panic in case %s: %v", caseID, e),
@@ -63,14 +85,34 @@ func guardCase(c *vlib.Ctx, section, caseID string, fn func()) {
 			}
 		}()
 		fn()
-	})
+	}, probe)
 	if !out.TimedOut {
 		return
 	}
 	h := curHist.Load()
 	chain := pmap.DeadlockChain(out.Stack)
+	if out.Proven && h != nil && len(chain) > 0 {
+		// the case goroutine spins for ever; its history object is no longer written
+		outer := chain[len(chain)-1] // "IntIntMap.Put"
+		hungTypes[h.d.Name] = true
+		runtime.GOMAXPROCS(runtime.GOMAXPROCS(0) + 1) // the spinner keeps one P busy from now on
+		h.dead, h.in.Dead = true, true
+		op := curOp.Load()
+		h.trace = append(h.trace, op.String()+" -> never returns")
+		c.Count("histories_abandoned_after_endless_chain_walk", 1)
+		h.noWalk = true // the table is being rewritten by the spinning call: do not walk it for the replay detail
+		h.fail(outer[strings.Index(outer, ".")+1:], "never-returns",
+			fmt.Sprintf("%s.%s never returns on a private instance used by one goroutine: the call is executing %s and %s — a chain walk over it cannot end",
+				h.d.Name, op, chain[0], cycle),
+			map[string]interface{}{"running_goroutine": out.Stack, "call_chain": strings.Join(chain, "<-"), "cyclic_chain": cycle})
+		return
+	}
 	if !out.ParkedInOwnLock || len(chain) == 0 || h == nil {
-		c.Inconclusive(caseID, fmt.Sprintf("no progress for %d x %s and the goroutine dump does not show the case parked on the structure's own mutex", 30, guardTimeout))
+		if h != nil {
+			hungTypes[h.d.Name] = true
+			runtime.GOMAXPROCS(runtime.GOMAXPROCS(0) + 1)
+		}
+		c.Inconclusive(caseID, fmt.Sprintf("no progress for %d x %s and the goroutine dump does not show the case parked on the structure's own mutex, nor does the private table hold a cyclic chain", 30, guardTimeout))
 		return
 	}
 	// the case goroutine is parked for ever; its history object is no longer written
@@ -105,6 +147,7 @@ type hist struct {
 	tableLen int
 	rehashes int
 	dead     bool
+	noWalk   bool
 	hash     uint64
 	// kindOverride / methodOverride: failures of a ToObject target are all reported as
 	// IntIntMap.ToObject:serialization
@@ -114,6 +157,7 @@ type hist struct {
 
 	ipool  []int32
 	spool  []string
+	tw     twinSet // equal-hash key groups mixed into the pool (twins.go)
 	known  []int32 // int keys that were inserted at some point
 	sknown []string
 	vals   []int32 // recently stored values
@@ -132,7 +176,7 @@ func (h *hist) detail(extra map[string]interface{}) map[string]interface{} {
 	if note != "" {
 		d["note"] = note
 	}
-	if !walkerBroken {
+	if !walkerBroken && !h.noWalk {
 		if rep := pmap.Walk(h.in); rep.Err == nil {
 			missing, extra := pmap.DiffTokens(h.m.EntryTokens(), walkTokens(h.d, rep))
 			d["private_table"] = map[string]interface{}{"buckets": rep.TableLen, "count": rep.Count, "entries_chained": len(rep.Entries),
@@ -215,6 +259,14 @@ func (h *hist) step(op pmap.Op) {
 		h.c.Count("ops_skipped_after_self_deadlock", 1)
 		return
 	}
+	twin, partner := false, false
+	self := false
+	if singleKeyOps[op.Name] {
+		if !h.tw.empty() {
+			twin, partner = h.partnerLive(op)
+		}
+		self = h.selfLive(op)
+	}
 	want := h.m.Step(op)
 	got := h.apply(op)
 	h.record(op, got)
@@ -266,6 +318,7 @@ func (h *hist) step(op pmap.Op) {
 		}
 	}
 	h.c.Count("size_checks", 1)
+	h.twinCoverage(op, twin, partner, self)
 	if !mutating[op.Name] {
 		return
 	}
@@ -275,6 +328,12 @@ func (h *hist) step(op pmap.Op) {
 		if h.tableLen > 0 {
 			h.rehashes++
 			h.c.Count("rehashes_crossed", 1)
+			if singleKeyOps[op.Name] && tl > h.tableLen {
+				h.growthCoverage(op, h.tableLen, !self)
+			}
+			if h.liveTwinGroups() > 0 {
+				h.c.Count("rehashes_with_equal_hash_pair_stored", 1)
+			}
 		}
 		h.tableLen = tl
 		h.c.Max("max_table_len", int64(tl))
@@ -400,6 +459,17 @@ func (h *hist) fullCheck() {
 				}
 			}
 		}
+		// every member of an equal-hash group, stored or not
+		for _, s := range h.tw.smem {
+			probes = append(probes, pmap.StrOp("Contains", s), pmap.StrOp("HasKey", s))
+		}
+		for _, k := range h.tw.imem {
+			probes = append(probes, pmap.Op{Name: "Get", K: k}, pmap.Op{Name: "ContainsKey", K: k})
+		}
+		if n := h.liveTwinGroups(); n > 0 {
+			h.c.Count("full_checks_with_equal_hash_pair_stored", 1)
+			h.c.Count("full_checks_with_equal_hash_pair_stored_"+h.d.Name, 1)
+		}
 		for _, op := range probes {
 			want := h.m.Step(op)
 			got := h.apply(op)
@@ -517,7 +587,7 @@ var intSpecials = []int32{0, -1, 1, math.MinInt32, math.MaxInt32, math.MinInt32 
 
 // makeIntPool builds the key pool: specials, keys colliding modulo the current and the next
 // table sizes (found by search for the bit-mixed index), a dense run and random keys.
-func makeIntPool(r *vlib.Rand, typ string, capacity, size int) []int32 {
+func makeIntPool(r *vlib.Rand, typ string, capacity, size int, tw *twinSet) []int32 {
 	if capacity == 0 {
 		capacity = 101
 	}
@@ -533,10 +603,40 @@ func makeIntPool(r *vlib.Rand, typ string, capacity, size int) []int32 {
 	for _, i := range permN(r, len(intSpecials))[:nSpecial] {
 		add(intSpecials[i])
 	}
+	// equal-hash pairs (IntKeyMap: the only int-keyed type here whose hash is not injective)
+	if typ == pmap.TIntKeyMap {
+		for _, g := range intTwinGroups(r, twinGroupCount(r, size)) {
+			if len(pool)+len(g) > size && len(pool) > 0 {
+				pool = pool[:maxInt(0, size-len(g))] // small pools: the pair replaces specials
+				seen = map[int32]bool{}
+				for _, k := range pool {
+					seen[k] = true
+				}
+			}
+			if !seen[g[0]] && !seen[g[1]] {
+				add(g[0])
+				add(g[1])
+				tw.addInt(g)
+			}
+		}
+	}
 	// colliding keys
 	nColl := size / 3
 	if size <= 8 {
 		nColl = size / 2
+	}
+	// half of them: groups of 2..5 congruent modulo the capacities of the successive tables
+	if size >= 6 {
+		nLevel := nColl / 2
+		if nLevel > 160 {
+			nLevel = 160
+		}
+		for _, g := range levelGroups(r, typ, capacity, nLevel) {
+			for _, k := range g {
+				add(k)
+			}
+		}
+		nColl -= nLevel
 	}
 	l1, l2, l3 := capacity, 2*capacity+1, 4*capacity+3
 	if typ == pmap.TIntKeyMap {
@@ -597,7 +697,7 @@ func makeIntPool(r *vlib.Rand, typ string, capacity, size int) []int32 {
 	return pool
 }
 
-func makeStrPool(r *vlib.Rand, size int) []string {
+func makeStrPool(r *vlib.Rand, size int, tw *twinSet) []string {
 	pool := make([]string, 0, size)
 	seen := map[string]bool{}
 	add := func(s string) {
@@ -608,6 +708,20 @@ func makeStrPool(r *vlib.Rand, size int) []string {
 	}
 	if r.Intn(3) != 0 {
 		add("")
+	}
+	// equal-hash groups: distinct strings with one hash.HashStr value
+	for _, g := range strTwinGroups(r, twinGroupCount(r, size)) {
+		if len(pool)+len(g) > size {
+			g = g[:maxInt(2, size-len(pool))]
+			if len(pool)+len(g) > size {
+				pool = pool[:0] // a pool of 2: just the pair
+				seen = map[string]bool{}
+			}
+		}
+		for _, s := range g {
+			add(s)
+		}
+		tw.addStr(g)
 	}
 	for _, s := range []string{"a", "b", "0", " ", "한국어", "\xff\xfe", "a\x00b", "k1"} {
 		if r.Bool() {
@@ -645,6 +759,26 @@ func permN(r *vlib.Rand, n int) []int {
 	return p
 }
 
+// twinGroupCount: how many equal-hash groups a pool of this size gets.
+func twinGroupCount(r *vlib.Rand, size int) int {
+	switch {
+	case size <= 6:
+		return 1
+	case size <= 24:
+		return r.Range(1, 3)
+	case size <= 150:
+		return r.Range(2, 8)
+	}
+	return r.Range(6, 24)
+}
+
+func maxInt(a, b int) int {
+	if a > b {
+		return a
+	}
+	return b
+}
+
 func minInt(a, b int) int {
 	if a < b {
 		return a
@@ -666,6 +800,20 @@ func (h *hist) pickInt() int32 {
 		return intSpecials[r.Intn(len(intSpecials))]
 	}
 	return r.I32()
+}
+
+func (h *hist) pickIntFor(name string) int32 {
+	if len(h.tw.imem) > 0 && h.twinTurn() {
+		return h.pickTwinInt(name)
+	}
+	return h.pickInt()
+}
+
+func (h *hist) pickStrFor(name string) string {
+	if len(h.tw.smem) > 0 && h.twinTurn() {
+		return h.pickTwinStr(name)
+	}
+	return h.pickStr()
 }
 
 func (h *hist) pickKnownInt() int32 {
@@ -785,14 +933,17 @@ func (h *hist) genOp(name string, phase int) pmap.Op {
 	if h.d.StringKey {
 		switch name {
 		case "Put", "Unipoint":
-			s := h.pickStr()
+			s := h.pickStrFor(name)
 			if len(h.sknown) < 4096 {
 				h.sknown = append(h.sknown, s)
 			}
 			return pmap.StrOp(name, s)
 		case "Contains", "HasKey":
-			return pmap.StrOp(name, h.pickStr())
+			return pmap.StrOp(name, h.pickStrFor(name))
 		case "Remove":
+			if h.twinTurn() {
+				return pmap.StrOp(name, h.pickTwinStr(name))
+			}
 			if phase == phDrain && len(h.sknown) > 0 && r.Intn(10) < 8 {
 				return pmap.StrOp(name, h.sknown[r.Intn(len(h.sknown))])
 			}
@@ -804,7 +955,7 @@ func (h *hist) genOp(name string, phase int) pmap.Op {
 	}
 	switch name {
 	case "Put", "Add", "AddIfExist":
-		op := pmap.Op{Name: name, K: h.pickInt()}
+		op := pmap.Op{Name: name, K: h.pickIntFor(name)}
 		if !h.d.IsSet {
 			op.V = h.pickVal()
 			h.remember(op.V)
@@ -817,8 +968,11 @@ func (h *hist) genOp(name string, phase int) pmap.Op {
 		}
 		return op
 	case "Get", "ContainsKey", "Contains":
-		return pmap.Op{Name: name, K: h.pickInt()}
+		return pmap.Op{Name: name, K: h.pickIntFor(name)}
 	case "Remove":
+		if len(h.tw.imem) > 0 && h.twinTurn() {
+			return pmap.Op{Name: name, K: h.pickTwinInt(name)}
+		}
 		if phase == phDrain {
 			return pmap.Op{Name: name, K: h.pickKnownInt()}
 		}
@@ -903,9 +1057,13 @@ func runHistory(c *vlib.Ctx, d *pmap.Descriptor, section string, i int, r *vlib.
 		poolSize = []int{100, 400, 1000}[r.Intn(3)]
 	}
 	if d.StringKey {
-		h.spool = makeStrPool(r, poolSize)
+		h.spool = makeStrPool(r, poolSize, &h.tw)
 	} else {
-		h.ipool = makeIntPool(r, d.Name, capacity, poolSize)
+		h.ipool = makeIntPool(r, d.Name, capacity, poolSize, &h.tw)
+	}
+	if !h.tw.empty() {
+		c.Count("histories_with_equal_hash_groups_"+d.Name, 1)
+		c.Count("equal_hash_groups_in_pools", int64(len(h.tw.sgroups)+len(h.tw.igroups)))
 	}
 	h.fullCheck() // the fresh structure
 	for n := 0; n < nops && !h.dead; n++ {
@@ -1001,15 +1159,38 @@ func main() {
 			defer pprof.StopCPUProfile()
 		}
 	}
+	// equal-hash key groups (twins.go): computed once, the same in every process
+	grp := pmap.CRCGroups()
+	c.Max("max_equal_hash_string_groups_available", int64(len(grp.Groups)))
+	c.Max("max_equal_hash_int_differences_available", int64(len(pmap.MixedKernel())))
+	if c.Shard == 0 {
+		c.Note(fmt.Sprintf("equal-hash string groups: %d, from %s", len(grp.Groups), grp.Source))
+		if !grp.LibraryAgrees {
+			c.Note("hash.HashStr is not CRC-32 IEEE on the reference collision groups (C15 checks that equality); the groups were searched with the library's own function")
+		}
+		for _, d := range pmap.MixedKernel() {
+			c.Note(fmt.Sprintf("IntKeyMap: keys k and k^%#x have the same full hash (difference cancelled by the bit mix, found by elimination on the restated mix)", uint32(d)))
+		}
+	}
 	per := c.N(3000, 60000)
 	for _, d := range pmap.Types {
 		d := d
 		section := "hist-" + d.Name
 		c.Cases(section, per, func(i int, r *vlib.Rand) {
+			if hungTypes[d.Name] {
+				c.Eval(-1) // a skipped case is not an evaluation
+				c.Count("histories_skipped_after_hang", 1)
+				return
+			}
 			guardCase(c, section, fmt.Sprintf("%s#%d", section, i), func() { runHistory(c, d, section, i, r) })
 		})
 	}
 	c.Cases("serial", c.N(1500, 30000), func(i int, r *vlib.Rand) {
+		if hungTypes[pmap.TIntIntMap] {
+			c.Eval(-1)
+			c.Count("histories_skipped_after_hang", 1)
+			return
+		}
 		guardCase(c, "serial", fmt.Sprintf("serial#%d", i), func() { serialCase(c, i, r) })
 	})
 
@@ -1020,6 +1201,19 @@ func main() {
 	c.Floor("rehashes_crossed", int64(per)/10/sh, c.Counter("rehashes_crossed"))
 	c.Floor("enumerations_compared", int64(per)*4/sh, c.Counter("enumerations_compared"))
 	c.Floor("walker_runs", int64(per)*4/sh, c.Counter("walker_runs"))
+	// equal-hash groups and chains at growth
+	c.Floor("equal_hash_second_member_inserted_StringSet", int64(per)*2/sh, c.Counter("equal_hash_second_member_inserted_StringSet"))
+	c.Floor("equal_hash_second_member_inserted_IntKeyMap", int64(per)/sh, c.Counter("equal_hash_second_member_inserted_IntKeyMap"))
+	c.Floor("equal_hash_member_removed_partner_stays", int64(per)*2/sh, c.Counter("equal_hash_member_removed_partner_stays"))
+	c.Floor("equal_hash_lookup_of_absent_member_with_partner_stored", int64(per)/2/sh, c.Counter("equal_hash_lookup_of_absent_member_with_partner_stored"))
+	c.Floor("full_checks_with_equal_hash_pair_stored", int64(per)*5/sh, c.Counter("full_checks_with_equal_hash_pair_stored"))
+	c.Floor("rehashes_with_equal_hash_pair_stored", int64(per)/3/sh, c.Counter("rehashes_with_equal_hash_pair_stored"))
+	c.Floor("growths_with_equal_hash_keys_in_old_chain", int64(per)/4/sh, c.Counter("growths_with_equal_hash_keys_in_old_chain"))
+	c.Floor("growths_with_negative_key_in_old_chain", int64(per)/2/sh, c.Counter("growths_with_negative_key_in_old_chain"))
+	c.Floor("growths_with_old_chain_ge2_IntIntMap", int64(per)/2/sh, c.Counter("growths_with_old_chain_ge2_IntIntMap"))
+	c.Floor("growths_with_old_chain_ge2_IntKeyMap", int64(per)/5/sh, c.Counter("growths_with_old_chain_ge2_IntKeyMap"))
+	c.Floor("growths_with_old_chain_ge2_IntSet", int64(per)/20/sh, c.Counter("growths_with_old_chain_ge2_IntSet"))
+	c.Floor("growths_with_old_chain_ge2_StringSet", int64(per)/10/sh, c.Counter("growths_with_old_chain_ge2_StringSet"))
 	c.Floor("serialization_round_trips", int64(c.N(1500, 30000))/10/sh, c.Counter("serialization_round_trips"))
 	c.Finish()
 	fmt.Println("done")
